@@ -202,6 +202,20 @@ def check_size_selection(rep, F):
         A_, B_ = full[0]["args"][-2], full[0]["args"][-1]
         rA, rB = Fn("getRank")(A_), Fn("getRank")(B_)
         bad = None
+        undecided = None
+        partial = []
+
+        def zero_orc(lf):
+            """isZero of a site's WHOLE multipole vector is a legitimate 'nothing to do' test (named ALLZERO, false in every scenario below);
+            isZero of a part of it (head/segment/tail) skips the interaction although other moments are present"""
+            if str(getattr(lf, "func", "")) == "isZero" and lf.args:
+                inner = lf.args[0]
+                if str(getattr(inner, "func", "")) == "Q":
+                    return ("ALLZERO", True)
+                if str(getattr(inner, "func", "")) in ("head", "tail", "segment") and "Q(" in str(inner):
+                    partial.append(str(lf))
+                    return ("ALLZERO", True)
+            return None
         for ra, rb in itertools.product((0, 1, 2), repeat=2):
             sub = {rA: sp.Integer(ra), rB: sp.Integer(rb)}
             # min/max of the two ranks, as they may appear in the selecting condition
@@ -218,13 +232,13 @@ def check_size_selection(rep, F):
                                     sub[a_] = (sp.Min if str(a_.func) == "min" else sp.Max)(*[x.xreplace(sub) for x in a_.args])
             hit = []
             for e in full:
-                x = executes(e, sub, {}, None, conds)
+                x = executes(e, sub, {"ALLZERO": False}, zero_orc, conds)
                 if x is None:
-                    bad = "cannot decide which VSiteA<N> is used for rank(%s) = %d, rank(%s) = %d" % (A_, ra, B_, rb)
+                    undecided = "cannot decide which VSiteA<N> is used for rank(%s) = %d, rank(%s) = %d" % (A_, ra, B_, rb)
                     break
                 if x:
                     hit.append(e)
-            if bad:
+            if bad or undecided:
                 break
             ns = [int(re.search(r"<(\d+)>", e["node"].get("callee_targs") or "<0>").group(1)) for e in hit]
             need = 9 if ra == 2 else 4
@@ -233,5 +247,10 @@ def check_size_selection(rep, F):
                     A_, ra, B_, rb, ns, "quadrupole terms" if need == 9 else "terms", A_)
                 break
         n_sites += 1
+        if undecided and not partial:
+            rep.broken("R15.4", "%s: %s" % (f.qname, undecided))
+            continue
+        if partial and bad is None:
+            bad = "the interaction is skipped when %s: that tests only a part of the multipole vector, so a site whose remaining moments are non-zero (e.g. a pure quadrupole) contributes nothing" % partial[0]
         rep.check(bad is None, "R15.4", "size-selection|" + f.qname.split("::")[-1], "VSiteA<9> whenever the contracted site carries a quadrupole", "%s: %s" % (f.qname, bad), f.loc(full[0]["node"]), sample=True)
     rep.floor("R15.4", n_sites, 1, "callers contracting VSiteA with the full multipole vector")
